@@ -1,5 +1,5 @@
 CONSTANTS
   Mode = "index"
 SPECIFICATION Spec
-INVARIANTS TableIsParser Emit
+INVARIANTS TableIsParser ValueFreeOfEach Emit
 CHECK_DEADLOCK FALSE
